@@ -56,7 +56,8 @@ class Report(object):
         self.cands = {}          # signature -> (case, description)
         self.confirmed = []      # (signature, path, description)
         self.known_hit = []
-        self.inconclusive = []   # strings
+        self.inconclusive = []
+        self.not_explored = []   # strings
         self.coverage = {}
         self.assumptions = []
         self.functions = []
@@ -79,6 +80,11 @@ class Report(object):
             self.cands[signature] = (case, description)
 
     def inconcl(self, text):
+        if SKIP_MARK in str(text):
+            # a task the thorough tier's time budget did not reach (or that ran past its per-task limit):
+            # not explored - counted and listed in the evidence, never reported as held
+            self.not_explored.append(str(text)[:300])
+            return
         self.inconclusive.append(text)
 
     def canary(self, name, detected):
@@ -129,6 +135,8 @@ class Report(object):
         self.write_evidence(violations)
         for t in self.inconclusive:
             print("INCONCLUSIVE: %s" % t)
+        if self.not_explored:
+            print("NOT-EXPLORED: %d tasks were not reached within the time budget (listed in the evidence)" % len(self.not_explored))
         print("%s %s: %s  (%.1fs)" % (self.pid, self.tier,
                                       {0: "held on everything explored", 1: "VIOLATED", 2: "inconclusive / harness error"}[code],
                                       time.time() - self.t0))
@@ -148,6 +156,9 @@ class Report(object):
         cov["counterexamples_replayed_on_real_code"] = getattr(self, "replayed", 0)
         cov["violations_new"] = [{"signature": s, "replay": p, "what": d} for (s, p, d) in self.confirmed]
         cov["inconclusive"] = self.inconclusive
+        if self.not_explored:
+            cov["not_explored"] = {"count": len(self.not_explored), "reason": "time budget of the tier (tasks are taken in a seeded random order; %s s per parallel map, %s s per task)" % (
+                os.environ.get("VERIF_BUDGET_S", "-"), os.environ.get("VERIF_TASK_TIMEOUT_S", "-")), "examples": self.not_explored[:12]}
         if self.notes:
             cov["notes"] = self.notes
         ev = {"property_id": self.pid, "tier": self.tier, "seed": seed(), "level": self.level,
@@ -268,9 +279,27 @@ def nprocs():
         return 8
 
 
+SKIP_MARK = "SKIPPED-BY-BUDGET"
+
+
+class TaskTimeout(BaseException):
+    pass
+
+
+def _alarm(signum, frame):
+    raise TaskTimeout()
+
+
 def _pmap_call(args):
-    func, item = args
+    func, item = args[0], args[1]
+    deadline, limit = (args[2], args[3]) if len(args) > 2 else (None, None)
     from . import solve
+    if deadline is not None and time.time() > deadline:
+        return None, SKIP_MARK + ": not started", {}
+    if limit:
+        import signal
+        signal.signal(signal.SIGALRM, _alarm)
+        signal.setitimer(signal.ITIMER_REAL, float(limit))
     before = dict((k, v) for k, v in solve.STATS.items() if isinstance(v, (int, float)))
     tl = os.environ.get("VERIF_TASKLOG")
     t0 = time.time()
@@ -283,9 +312,15 @@ def _pmap_call(args):
         if tl:
             with open(tl, "a") as f:
                 f.write("DONE %d %.1fs %s\n" % (os.getpid(), time.time() - t0, repr(item)[:120]))
+    except TaskTimeout:
+        r, err = None, SKIP_MARK + ": stopped after %s s" % limit
     except BaseException as e:  # noqa
         import traceback
         r, err = None, "%r\n%s" % (e, traceback.format_exc()[-1500:])
+    finally:
+        if limit:
+            import signal
+            signal.setitimer(signal.ITIMER_REAL, 0)
     delta = {k: solve.STATS[k] - before[k] for k in before}
     return r, err, delta
 
@@ -297,12 +332,29 @@ def pmap(func, items, procs=None, chunksize=1):
     from . import solve
     procs = procs or nprocs()
     items = list(items)
+    # time budget (set by the thorough tier): tasks are taken in a seeded random order, so that what is reached
+    # is a spread sample of the task list; tasks not reached are reported as not explored
+    budget = float(os.environ.get("VERIF_BUDGET_S", "0") or 0)
+    limit = float(os.environ.get("VERIF_TASK_TIMEOUT_S", "0") or 0)
+    order = list(range(len(items)))
+    extra = ()
+    if budget > 0:
+        import random as _r
+        _r.Random(seed()).shuffle(order)
+        extra = (time.time() + budget, limit)
+        chunksize = 1
+    elif limit > 0:
+        extra = (None, limit)
+    work = [(func, items[i]) + extra for i in order]
     if procs <= 1 or len(items) <= 1:
-        res = [_pmap_call((func, it)) for it in items]
+        res_p = [_pmap_call(w) for w in work]
     else:
         ctx = mp.get_context("fork")
         with ctx.Pool(procs) as pool:
-            res = pool.map(_pmap_call, [(func, it) for it in items], chunksize=chunksize)
+            res_p = pool.map(_pmap_call, work, chunksize=chunksize)
+    res = [None] * len(items)
+    for i, r in zip(order, res_p):
+        res[i] = r
     out = []
     for r, err, delta in res:
         if procs > 1 and len(items) > 1:
